@@ -3,6 +3,7 @@
    Slices: every subject key type x every issuing signer model (incl. each ECDSA DER length);
    issuer-id forms x start instants x durations x time zones for derive_cert; clocks for
    self_sign / sign_req (incl. 29 February, version-number width boundaries).
+   Zones with daylight-saving time: start / end written as wall-clock reading + fold inside the repeated interval and the gap.
    The bytes of the subject key: every encoding of every key type x every issuing call x buffer kinds (KeyForms).
    Public-key lengths (canonical SubjectPublicKeyInfo) are measured from the run's key pool and passed as
    constants; the lengths of the other encodings are functions of the key type (EncLen; the executor refuses
@@ -45,7 +46,8 @@ Lit(n) == IF n = 1 THEN <<"", "KEY", "">> ELSE <<"", "", "KEY", "">>
 ReqF(fn, subj, kn, iss, idform, sg, clock, start, dur, tz, tz2) ==
   [fn |-> fn, subj |-> subj, keyname |-> KeyName(kn), lit |-> Lit(kn), publen |-> PubLen(subj), issuer |-> iss,
    idform |-> idform, sg |-> sg, clock |-> clock, start |-> start, dur |-> dur, tz |-> tz, tz2 |-> tz2,
-   zone |-> "", host |-> "UTC", enc |-> "spki", pubbuf |-> "bytes"]
+   zone |-> "", host |-> "UTC", enc |-> "spki", pubbuf |-> "bytes",
+   zone2 |-> "", sw |-> start, sf |-> 0, ew |-> AddSec(start, dur), ef |-> 0]
 \* the issuer id of a generic component as plain text, of any other as an encoded component
 Req(fn, subj, kn, iss, sg, clock, start, dur, tz) ==
   ReqF(fn, subj, kn, iss, IF fn = "derive" /\ iss.t = 8 /\ iss.l > 0 THEN "plain" ELSE "comp", sg, clock, start, dur, tz, tz)
@@ -99,13 +101,43 @@ HostZones ==
           \cup { Req(fn, "ed25519", 1, C(8, 0), SgI("ed25519", 64, 64, TRUE), Clk(i, 7), Epoch, 0, Naive) :
                     fn \in {"self_sign", "sign_req"}, i \in HostInstants } }
 \* the caller's zone has daylight-saving time: lifetimes are elapsed seconds
+\* InZone: the start written on the clock of zone z (z = "": left as it is), new_cert's end on the clock of z2 - reading and
+\* fold as CertTimeZone!WallOf gives them for the instants; FromWall: the start IS the reading w with fold f (also inside a gap)
+InZone(r, z, z2) ==
+  LET a == WallOf(ZoneOf(IF z = "" THEN "Europe/Berlin" ELSE z), r.start)
+      e == WallOf(ZoneOf(IF z2 = "" THEN "Europe/Berlin" ELSE z2), AddSec(r.start, r.dur)) IN
+  [r EXCEPT !.zone = z, !.tz = IF z = "" THEN r.tz ELSE 0, !.sw = IF z = "" THEN r.sw ELSE a.w, !.sf = IF z = "" THEN 0 ELSE a.fold,
+            !.zone2 = z2, !.tz2 = IF z2 = "" THEN r.tz2 ELSE 0, !.ew = IF z2 = "" THEN r.ew ELSE e.w, !.ef = IF z2 = "" THEN 0 ELSE e.fold]
+FromWall(r, z, w, f) ==
+  LET i == InstOf(ZoneOf(z), w, f) IN
+  [r EXCEPT !.zone = z, !.tz = 0, !.tz2 = 0, !.sw = w, !.sf = f, !.start = i, !.ew = AddSec(i, r.dur)]
 DstZones ==
-  { [r EXCEPT !.zone = z, !.tz = 0, !.tz2 = 0] :
+  { InZone(r, z, "") :
       \* (Europe/London, Europe/Lisbon: offset ZERO outside the summer - an aware start time whose utcoffset() is a falsy timedelta)
       z \in {"America/New_York", "Europe/Berlin", "Europe/London", "Europe/Lisbon"},
       r \in { Req("derive", "ed25519", 1, C(8, 3), SgI("hmac", 32, 32, TRUE), NormalClock, i, du, 0) :
                  i \in { At(2024, 3, 9, 17, 0, 0), At(2024, 3, 30, 12, 0, 0), At(2024, 11, 2, 16, 0, 0), At(2024, 6, 1, 0, 0, 0) },
                  du \in {3600, 86400} } }
+\* the instants lie INSIDE the hour (half hour) the zone's clock shows twice, or the reading lies inside the gap: the wall-clock
+\* fields alone do not say which instant is meant, fold does.  Start and end of one new_cert call on the same clock (the two
+\* passes of one reading when the lifetime is the step), on different clocks, derive_cert; every known zone and several years (thorough)
+FoldZones == IF Thorough THEN KnownZones ELSE {"Europe/Berlin", "Australia/Lord_Howe"}
+FoldYears == IF Thorough THEN {2008, 2024, 2038} ELSE {2024}
+BackOf(z, y) == LET t == Transitions(ZoneOf(z), y) IN IF t[1].after < t[1].before THEN t[1] ELSE t[2]
+FwdOf(z, y) == LET t == Transitions(ZoneOf(z), y) IN IF t[1].after < t[1].before THEN t[2] ELSE t[1]
+StepOf(t) == (IF t.before > t.after THEN t.before - t.after ELSE t.after - t.before) * 60
+FoldBase(fn, i, du) ==
+  IF fn = "derive" THEN Req("derive", "ed25519", 1, C(8, 3), SgI("hmac", 32, 32, TRUE), NormalClock, i, du, 0)
+  ELSE ReqF("new_cert", "ed25519", 1, C(8, 3), "comp", SgI("hmac", 32, 32, TRUE), NormalClock, i, du, 0, 0)
+DstFolds ==
+  UNION { LET t == BackOf(z, y)  st == StepOf(t) IN
+          { InZone(FoldBase(c[1], i, du), IF c[2] THEN z ELSE "", IF c[3] THEN z ELSE "") :
+              c \in { <<"derive", TRUE, FALSE>>, <<"new_cert", TRUE, TRUE>>, <<"new_cert", TRUE, FALSE>>, <<"new_cert", FALSE, TRUE>> },
+              i \in { Shift(t.at, 0 - st \div 2), Shift(t.at, st \div 2), Shift(t.at, 0 - st - 1) },
+              du \in {st, 86400} } : z \in FoldZones, y \in FoldYears }
+DstGaps ==
+  UNION { LET t == FwdOf(z, y)  w == Shift(t.at, t.before * 60 + StepOf(t) \div 2) IN
+          { FromWall(FoldBase(fn, Epoch, 86400), z, w, f) : fn \in {"derive", "new_cert"}, f \in {0, 1} } : z \in FoldZones, y \in FoldYears }
 \* years before 1000 (four-digit year with leading zeros) and the first representable day
 EarlyYears == { Req("derive", "ed25519", 1, C(8, 3), SgI("hmac", 32, 32, TRUE), NormalClock, i, du, Naive) :
                   i \in { At(999, 12, 31, 23, 59, 59), At(1000, 1, 1, 0, 0, 0), At(1, 1, 1, 0, 0, 0), At(1969, 12, 31, 23, 59, 59) },
@@ -154,6 +186,6 @@ Own(fn) == UNION { { Req(fn, k, kn, C(8, 0), s, ck, Epoch, 0, Naive) :
                    k \in SubjTypes }
 
 ReqSpace == { q \in DeriveSigners \cup DeriveTimes \cup DeriveClocks \cup DeriveIssuerIds \cup NewCertZones \cup OddIdentities
-                    \cup HostZones \cup DstZones \cup EarlyYears \cup OuterBoundary \cup KeyForms
+                    \cup HostZones \cup DstZones \cup DstFolds \cup DstGaps \cup EarlyYears \cup OuterBoundary \cup KeyForms
                     \cup Own("self_sign") \cup Own("sign_req") : InScope(q) }
 =============================================================================
